@@ -1,0 +1,17 @@
+//go:build verif
+// +build verif
+
+package ggql
+
+// VerifYield, when set, is called at the synchronization points of the
+// subscription registry and of the lazy reflection binding. It exists for the
+// verification harness only (build tag verif) which uses it to own the
+// schedule of concurrent calls. It must be set before any goroutine that can
+// reach a yield point is started.
+var VerifYield func(site string)
+
+func verifYield(site string) {
+	if f := VerifYield; f != nil {
+		f(site)
+	}
+}
